@@ -233,11 +233,26 @@ pub fn c08(m: &mut Mon, w: &mut World, _rng: &mut Rng) {
         }
     }
     let (n0, k0, t0) = results[0].clone();
+    // which call produced a result CID (for classification of differences)
+    let mut fn_of: BTreeMap<String, String> = BTreeMap::new();
+    for b in &blobs {
+        let d = interp::dec(b);
+        for (cid, agg) in d.cid_info.service_result_store.iter() {
+            if let Some(t) = d.cid_info.tetraplet_store.get(&agg.tetraplet_cid) {
+                fn_of.insert(cid.get_inner().to_string(), t.function_name.clone());
+            }
+        }
+    }
     for (nm, k, t) in results.iter().skip(1) {
         if *k != k0 {
             let diff: Vec<String> = k0.keys().chain(k.keys()).filter(|c| k0.get(*c) != k.get(*c)).cloned().collect::<BTreeSet<_>>().into_iter().collect();
-            let d = format!("knowledge differs between {n0} and {nm}: {diff:?}\nA: {t0:?}\nB: {t:?}\nscript: {}", w.sc.script);
-            m.report(w, None, "C08", "knowledge-differs", d);
+            let fns: Vec<String> = diff.iter().map(|c| fn_of.get(&c[1..]).cloned().unwrap_or_else(|| "?".into())).collect();
+            // calls in the last instruction of a stream fold run once per generation group, and the grouping of
+            // values into generations depends on the arrival order
+            let all_last_instr = !diff.is_empty() && fns.iter().all(|f| m.analysis.calls.get(f).map(|c| c.multi).unwrap_or(false));
+            let tag = if all_last_instr { "knowledge-differs-last-instruction" } else { "knowledge-differs" };
+            let d = format!("knowledge differs between {n0} and {nm}: {diff:?} (results of {fns:?})\nA: {t0:?}\nB: {t:?}\nscript: {}", w.sc.script);
+            m.report(w, None, "C08", tag, d);
             return;
         }
         if !has_streams && *t != t0 {
